@@ -137,7 +137,12 @@ class AC3Info(StreamInfo):
         r.skip(5)  # bitstream ID, already read
         r.skip(3)  # bitstream mode, not needed
         channel_mode = ChannelMode(r.bits(3))
-        r.skip(2)  # dolby surround mode or surround mix level
+        if (channel_mode & 0x1) and channel_mode != ChannelMode.MONO:
+            r.skip(2)  # center mix level (three front channels)
+        if channel_mode & 0x4:
+            r.skip(2)  # surround mix level (surround channels present)
+        if channel_mode == ChannelMode.STEREO:
+            r.skip(2)  # dolby surround mode
         lfe_on = r.bits(1)
 
         sr_shift = max(bitstream_id, 8) - 8
